@@ -408,7 +408,10 @@ func (p *constraintParser) value() (spans []span, hyphenated, valid bool) {
 		p.lex.pos += i + j + k
 		p.weight += 2
 		if lo != nil && hi != nil {
-			if hi.lessThan(lo) {
+			// Compare the bounds the span will have: a wildcard in
+			// the upper bound stands for infinity, as in "2.1 - x".
+			hi.setTail(wildcard, infinity)
+			if hi.lessThan(lo) && lo.major() != wildcard {
 				p.lex.setErr("impossible constraint: max greater than min")
 				return
 			}
